@@ -3,12 +3,15 @@ import json, os, time, re
 import vlib, tungen, tlcsched, tunnel_check, router_props
 
 # exhaustive configurations (Tunnel.tla), spec x observer simulation configs (MC_Tun.tla)
-MC = {'C03': (['MC_C03_q.cfg', 'MC_C03_2s.cfg', 'MC_C03_tcp.cfg'], ['MC_C03_t.cfg', 'MC_C03_2s.cfg', 'MC_C03_tcp.cfg']),
-      'C04': (['MC_C04_q.cfg'], ['MC_C04_t.cfg']),
-      'C05': (['MC_C05_q.cfg'], ['MC_C05_t.cfg']),
-      'C09': (['MC_C09_q.cfg'], ['MC_C09_t.cfg']),
-      'C10': (['MC_C10_q.cfg'], ['MC_C10_t.cfg']),
+# quick: configurations explored COMPLETELY in seconds (deterministic state counts); thorough: the same plus larger ones,
+# those that do not end are time-boxed (BOXED) and report complete = false
+MC = {'C03': (['MC_C03_q.cfg', 'MC_C03_2s.cfg', 'MC_C03_tcp.cfg'], ['MC_C03_q.cfg', 'MC_C03_2s.cfg', 'MC_C03_tcp.cfg', 'MC_C03_t.cfg']),
+      'C04': (['MC_C04_q.cfg'], ['MC_C04_q.cfg', 'MC_C04_t.cfg']),
+      'C05': (['MC_C05_q.cfg'], ['MC_C05_q.cfg', 'MC_C05_t.cfg']),
+      'C09': (['MC_C09_q.cfg'], ['MC_C09_q.cfg', 'MC_C09_m.cfg', 'MC_C09_t.cfg']),
+      'C10': (['MC_C10_q.cfg'], ['MC_C10_q.cfg', 'MC_C10_m.cfg', 'MC_C10_b.cfg', 'MC_C10_t.cfg']),
       'C17': (['MC_C17_q.cfg'], ['MC_C17_q.cfg'])}
+BOXED = {'MC_C03_t.cfg', 'MC_C04_t.cfg', 'MC_C05_t.cfg', 'MC_C09_t.cfg', 'MC_C10_b.cfg', 'MC_C10_t.cfg'}
 SIM = {'C03': ['SIM_C03.cfg', 'SIM_tcp.cfg'], 'C04': ['SIM_C04.cfg', 'SIM_tcp.cfg'], 'C05': ['SIM_C05.cfg'], 'C09': ['SIM_C09.cfg'],
        'C10': ['SIM_C10.cfg', 'SIM_all.cfg'], 'C17': ['SIM_C17.cfg']}
 
@@ -96,17 +99,17 @@ def model_note(msg, out):
 def run_mc(work, pid, tier):
     """Exhaustive TLC runs on the implementation-shaped specification."""
     cfgs = MC[pid][0 if tier == 'quick' else 1]
-    budget = 20 if tier == "quick" else 150
     states = trans = 0
     detail = []
     for c in cfgs:
+        budget = 150 if c in BOXED else 600      # the others end by themselves (5-80 s measured); 600 s is a safety net
         rc, out = vlib.tlc(work, 'Tunnel', cfg=c, workers=vlib.NCPU, timeout=budget + 120, name='mc_' + c,
                            env_extra={'JAVA_TOOL_OPTIONS': '-Dtlc2.TLC.stopAfter=%d' % budget})
         if 'Error:' in out:
             model_note('model checking %s: TLC reports an error or an invariant violated by the SPECIFICATION' % c, out)
         st, gen = vlib.tlc_states(out)
-        left = re.search(r'(\d+) states left on queue', out)
-        complete = bool(left) and int(left.group(1)) == 0 and 'Error:' not in out
+        left = re.findall(r'(\d+) states left on queue', out)
+        complete = bool(left) and int(left[-1]) == 0 and 'Error:' not in out
         states += st
         trans += gen
         detail.append(dict(cfg=c, distinct_states=st, states_generated=gen, complete=complete))
